@@ -96,10 +96,7 @@ func (ts *Timers) Add(ctx context.Context, id string, message interface{}, in ti
 	ts.timers[id] = te
 
 	stop := func() {
-		if err := ts.Rem(ctx, id); err != nil {
-			ts.err(fmt.Errorf("Timers rem error %v id=%s", err, id))
-
-		}
+		ts.claim(te)
 	}
 
 	go func() {
@@ -114,15 +111,20 @@ func (ts *Timers) Add(ctx context.Context, id string, message interface{}, in ti
 
 			// Not exactly what we want ...
 		case <-timer.C:
+			// The entry is removed before the message is
+			// emitted, and only if it is still this timer's
+			// entry: the id is free for whoever handles the
+			// message, and a timer that Rem() got to first
+			// does not fire.
+			//
+			// See https://github.com/Comcast/sheens/issues/19
+			if !ts.claim(te) {
+				return
+			}
 			Logf("Timers firing %s", JS(ts))
 			if err := ts.emit(ctx, te.Message); err != nil {
 				ts.err(fmt.Errorf("Timers emit error %v id=%s", err, id))
 			}
-
-			// See https://github.com/Comcast/sheens/issues/19
-			ts.Lock()
-			delete(ts.timers, id)
-			ts.Unlock()
 		}
 	}()
 
@@ -148,6 +150,19 @@ func (ts *Timers) Rem(ctx context.Context, id string) error {
 	close(te.ctl)
 
 	return nil
+}
+
+// claim removes te's entry if (and only if) te is still the timer
+// registered under its id, and reports whether it was.
+func (ts *Timers) claim(te *TimerEntry) bool {
+	ts.Lock()
+	defer ts.Unlock()
+
+	if cur, have := ts.timers[te.Id]; !have || cur != te {
+		return false
+	}
+	delete(ts.timers, te.Id)
+	return true
 }
 
 func (ts *Timers) err(err error) {
